@@ -256,7 +256,16 @@ func (p *Parser) led(tokenType tokType, node ASTNode) (ASTNode, error) {
 		name := node.value
 		var args []ASTNode
 		for p.current() != tRparen {
-			expression, err := p.parseExpression(0)
+			var expression ASTNode
+			var err error
+			if p.current() == tExpref {
+				// An expression reference is only valid as a function argument.
+				p.advance()
+				expression, err = p.parseExpression(bindingPowers[tExpref])
+				expression = ASTNode{nodeType: ASTExpRef, children: []ASTNode{expression}}
+			} else {
+				expression, err = p.parseExpression(0)
+			}
 			if err != nil {
 				return ASTNode{}, err
 			}
@@ -399,11 +408,7 @@ func (p *Parser) nud(token token) (ASTNode, error) {
 	case tCurrent:
 		return ASTNode{nodeType: ASTCurrentNode}, nil
 	case tExpref:
-		expression, err := p.parseExpression(bindingPowers[tExpref])
-		if err != nil {
-			return ASTNode{}, err
-		}
-		return ASTNode{nodeType: ASTExpRef, children: []ASTNode{expression}}, nil
+		return ASTNode{}, p.syntaxErrorToken("Expression references are only allowed as function arguments", token)
 	case tNot:
 		expression, err := p.parseExpression(bindingPowers[tNot])
 		if err != nil {
